@@ -75,6 +75,18 @@ func daemonMain(self string) {
 		pid, err := daemon.Launch(n)
 		os.WriteFile(filepath.Join(dir, fmt.Sprintf("nested.%d", os.Getpid())), []byte(fmt.Sprintf("%d %v", pid, err)), 0o644)
 	}
+	if os.Getenv("C20_STOPCONT") != "" {
+		// job control, a debugger attaching, a checkpoint tool: the daemon is stopped and continued a few times before it
+		// gets to Done() (the harness does that when it sees the request, and says when it is through)
+		me := os.Getpid()
+		os.WriteFile(filepath.Join(dir, fmt.Sprintf("stopme.%d", me)), nil, 0o644)
+		for i := 0; i < 300; i++ {
+			if _, err := os.Stat(filepath.Join(dir, fmt.Sprintf("continued.%d", me))); err == nil {
+				break
+			}
+			time.Sleep(10 * time.Millisecond)
+		}
+	}
 	switch os.Getenv("C20_DETACH") {
 	case "1":
 		syscall.Setsid() // the classic first step of a daemon: a session of its own, no controlling terminal
@@ -190,6 +202,7 @@ type kase struct {
 	shortLived       bool // the handler returns right after Done(): Launch still reports the pid it ran under
 	ignoresSigint    bool // the caller child runs with SIGINT ignored (nohup, background job)
 	rendezvous       bool // concurrent launches only: every daemon waits (up to 3 s) for its peers to have started before it calls Done()
+	stopCont         bool // the daemon is stopped and continued (SIGSTOP / SIGCONT) a few times before it reaches Done()
 	detach           int  // before Done() the handler calls 1: setsid(), 2: setpgid(0, 0)
 	execs            bool // after Done() the handler replaces its process image (syscall.Exec) and lives on as another program
 	childOnly        bool // the first launch asks for a handler that is registered in the re-executed processes only
@@ -238,6 +251,9 @@ func (k kase) String() string {
 	}
 	if k.execs {
 		s += " daemonExecsAnotherProgramAfterDone"
+	}
+	if k.stopCont {
+		s += " daemonIsStoppedAndContinuedBeforeDone"
 	}
 	if k.detach > 0 {
 		s += []string{"", " handlerCallsSetsidBeforeDone", " handlerCallsSetpgidBeforeDone"}[k.detach]
@@ -304,6 +320,39 @@ func runCase(k kase) string {
 	}
 	env["C20_DONE_FROM"] = strconv.Itoa(k.doneFrom)
 	env["C20_DETACH"] = strconv.Itoa(k.detach)
+	if k.stopCont {
+		env["C20_STOPCONT"] = "1"
+		stopDone := make(chan struct{})
+		defer close(stopDone)
+		go func() {
+			handled := map[string]bool{}
+			for {
+				select {
+				case <-stopDone:
+					return
+				case <-time.After(5 * time.Millisecond):
+				}
+				reqs, _ := filepath.Glob(filepath.Join(dir, "stopme.*"))
+				for _, r := range reqs {
+					if handled[r] {
+						continue
+					}
+					handled[r] = true
+					pid, err := strconv.Atoi(strings.TrimPrefix(filepath.Base(r), "stopme."))
+					if err != nil {
+						continue
+					}
+					for i := 0; i < 3; i++ {
+						syscall.Kill(pid, syscall.SIGSTOP)
+						time.Sleep(5 * time.Millisecond)
+						syscall.Kill(pid, syscall.SIGCONT)
+						time.Sleep(5 * time.Millisecond)
+					}
+					os.WriteFile(filepath.Join(dir, fmt.Sprintf("continued.%d", pid)), nil, 0o644)
+				}
+			}
+		}()
+	}
 	if k.execs && sleepBin != "" {
 		env["C20_EXEC_AFTER_DONE"] = sleepBin
 	}
@@ -685,6 +734,7 @@ func TestGenerated(t *testing.T) {
 		k.doneFrom = rapid.SampledFrom([]int{0, 0, 1, 2}).Draw(t, "doneCalledFrom")
 		k.rendezvous = k.concurrent > 1 && !k.nested && rapid.IntRange(0, 3).Draw(t, "daemonsWaitForEachOther") == 0
 		k.detach = rapid.SampledFrom([]int{0, 0, 0, 1, 2}).Draw(t, "handlerDetachesBeforeDone")
+		k.stopCont = !k.nested && rapid.IntRange(0, 5).Draw(t, "daemonStoppedAndContinued") == 0
 		k.execs = !k.shortLived && k.doneFrom == 0 && rapid.IntRange(0, 4).Draw(t, "daemonExecsAfterDone") == 0
 		k.childOnly = !k.afterFailed && rapid.IntRange(0, 4).Draw(t, "handlerKnownToTheReexecutedProcessOnly") == 0
 		msg := runCase(k)
@@ -727,6 +777,9 @@ func TestGenerated(t *testing.T) {
 		}
 		if k.detach > 0 {
 			ev.Label("handler_leaves_its_session_or_process_group_before_Done")
+		}
+		if k.stopCont {
+			ev.Label("daemon_stopped_and_continued_before_Done")
 		}
 		if k.rendezvous && k.concurrent > 1 {
 			ev.Label("daemons_wait_for_each_other_before_Done")
